@@ -247,7 +247,8 @@ Inductive nitool_case :=
 | NCInject (c : inject_case)
 | NCSplitNames (src : str) (n : nat) (obs : list str)          (* default names of n parts *)
 | NCMergeOrder (keys : list Z) (obs : list nat)                 (* --sort: the order in which the inputs were merged *)
-| NCOracleOnly.                                                 (* dump/embed, lookup, file equality: judged by the oracle *)
+| NCLookup (index : option str) (r : option str) (out : str)   (* get_meta returned r (None, or Some (str value)); captured stdout *)
+| NCOracleOnly.                                                 (* dump/embed, file equality: judged by the oracle *)
 
 Fixpoint default_split_names (dir fn : str) (idx n : nat) : list str :=
   match n with
@@ -258,12 +259,26 @@ Fixpoint default_split_names (dir fn : str) (idx n : nat) : list str :=
 Fixpoint number_from {A} (i : nat) (l : list A) : list (nat * A) :=
   match l with [] => [] | x :: r => (i, x) :: number_from (S i) r end.
 
+(** what `nitool lookup` writes to stdout when the library's get_meta answers [r]: the model's lookup
+    sub-command over a one-point image type *)
+Definition lookup_stdout (index : option str) (r : option str) : res str :=
+  let o := nitool_cmd unit (fun _ => Ok tt) (fun _ => Err ECrash) false (fun _ => true) (fun n => n)
+             (fun _ _ => Err ECrash) (fun _ _ => Err ECrash) (fun n => n) (fun _ _ => Err ECrash) (fun _ => []) (fun n => n)
+             (fun _ _ => Err ECrash) (fun _ _ _ => Ok r) (fun _ _ => Err ECrash) xval XStored
+             (fun _ => {| x_valid := []; x_mult := fun _ => 0; x_dict := fun _ => [] |}) (fun n _ => n)
+             (NLookup [] [] index) in
+  match no_status unit o with
+  | Ok _ => Ok (concat (map snd (no_text unit o)))
+  | Err e => Err e
+  end.
+
 Definition check_nitool (c : nitool_case) : bool :=
   match c with
   | NCInject j => check_inject j
   | NCSplitNames src n obs =>
       let '(dir, fn) := path_split src in strs_eqb (default_split_names dir fn 0 n) obs
   | NCMergeOrder keys obs => list_eqb Nat.eqb (map fst (sort_by snd (number_from 0 keys))) obs
+  | NCLookup index r out => match lookup_stdout index r with Ok s => str_eqb s out | Err _ => false end
   | NCOracleOnly => true
   end.
 
@@ -277,5 +292,6 @@ Definition show_nitool (c : nitool_case) :=
       end
   | NCSplitNames src n _ => let '(dir, fn) := path_split src in (Ok 0%Z, [], None, default_split_names dir fn 0 n, [])
   | NCMergeOrder keys _ => (Ok 0%Z, [], None, [], map fst (sort_by snd (number_from 0 keys)))
+  | NCLookup index r _ => (Ok 0%Z, [], None, match lookup_stdout index r with Ok s => [s] | Err _ => [] end, [])
   | NCOracleOnly => (Ok 0%Z, [], None, [], [])
   end.
